@@ -65,6 +65,7 @@ type Farm struct {
 	closed    atomic.Bool
 	OpenConns atomic.Int64 // accepted TCP connections not yet closed by the farm
 	KeepLog   bool
+	Hook      func(Event) // called for every event (must be safe for concurrent use); set before traffic starts
 }
 
 func New() *Farm { return &Farm{KeepLog: true} }
@@ -72,6 +73,9 @@ func New() *Farm { return &Farm{KeepLog: true} }
 func (f *Farm) SetScript(s Script) { f.script.Store(s) }
 
 func (f *Farm) record(e Event) {
+	if f.Hook != nil {
+		f.Hook(e)
+	}
 	if !f.KeepLog {
 		return
 	}
